@@ -7,6 +7,7 @@ Property theorems only (helper lemmas: `NumqiProofs/BoundaryLemmas.lean`).  The 
 constraints of the programme).
 -/
 import NumqiProofs.BoundaryLemmas
+import NumqiProofs.BoundaryDicke
 
 namespace Numqi.C06
 open Numqi Numqi.Boundary Matrix
@@ -210,10 +211,8 @@ theorem beta_kext_chain (k : ℕ) (c v : Matrix (Fin dA × Fin dB) (Fin dA × Fi
   have hbd' : BddAbove (feasible (KEXT dA dB k) c v) := hbd.mono (feasible_mono (kext_subset_dm k) c v)
   exact ⟨beta_mono (kext_succ_subset k) c v hne hbd', beta_mono (kext_subset_dm k) c v hne' hbd⟩
 
-/-- **`pureb_has_extension` (elementary half)**: for a pure state `ψ` on `A ⊗ B^{⊗(k+1)}` that is symmetric under permutations
-of the copies (what a vector in the Dicke basis is), `|ψ⟩⟨ψ|` is a symmetric extension of its own reduction; so the reduction is
-`(k+1)`-copy extendible and, by `kext_succ_subset`, extendible to every smaller number of copies.
-**Named gap** (C17): that `partial_trace_ABk_to_AB` applied to the Dicke coefficients *is* `reduceLast |ψ⟩⟨ψ|`. -/
+/-- for a pure state `ψ` on `A ⊗ B^{⊗(k+1)}` that is symmetric under permutations of the copies (what a vector in the Dicke
+basis is), `|ψ⟩⟨ψ|` is a symmetric extension of its own reduction. -/
 theorem pure_symmetric_reduction_extendible (k : ℕ) (ψ : Fin dA × (Fin (k + 1) → Fin dB) → ℂ)
     (hψ : ∀ π : Equiv.Perm (Fin (k + 1)), ∀ p, ψ (p.1, p.2 ∘ π) = ψ p) :
     reduceLast (vecMulVec ψ (star ψ)) ∈ KEXT dA dB k := by
@@ -221,6 +220,27 @@ theorem pure_symmetric_reduction_extendible (k : ℕ) (ψ : Fin dA × (Fin (k + 
   intro π p q
   simp only [vecMulVec_apply, Pi.star_apply]
   rw [hψ π p, hψ π q]
+
+/-- fewer copies: `KEXT (k+j) ⊆ KEXT k` -/
+theorem kext_add_subset (k j : ℕ) : KEXT dA dB (k + j) ⊆ KEXT dA dB k := by
+  induction j with
+  | zero => exact fun _ h => h
+  | succ j ih => exact fun ρ h => ih (kext_succ_subset (k + j) h)
+
+/-- **`pureb_has_extension`**: the density matrix that the modelled code path of `PureBosonicExt(dimA, dimB, kext = n+1)` returns
+for **any** parameter vector — `partial_trace_ABk_to_AB` applied to the Dicke coefficients `ψ`, C17's model `Dicke.assembleAB` on
+the index table, which `C17.dicke_reduction_eq` proves equal to embedding with the Dicke basis and tracing out `n` copies — has a
+symmetric extension to `n+1` copies of `B`, hence to every smaller number of copies, and is positive.  All `dimA`, `dimB ≥ 2`, `n`. -/
+theorem pureb_has_extension (n j : ℕ) (hj : j ≤ n) (hd : 2 ≤ dB) (ψ : ℕ → ℕ → ℂ) :
+    (fun p q : Fin dA × Fin dB =>
+        @Dicke.assembleAB ℂ _ _ _ ⟨starRingEnd ℂ⟩ dB (C17.tableC (n + 1) dB) ψ (p.1.val * dB + p.2.val) (q.1.val * dB + q.2.val))
+      ∈ KEXT dA dB j ∧
+    (fun p q : Fin dA × Fin dB =>
+        @Dicke.assembleAB ℂ _ _ _ ⟨starRingEnd ℂ⟩ dB (C17.tableC (n + 1) dB) ψ (p.1.val * dB + p.2.val) (q.1.val * dB + q.2.val))
+      ∈ DM dA dB := by
+  have h : _ ∈ KEXT dA dB n := ⟨_, assembleAB_isSymExt dA n hd ψ⟩
+  obtain ⟨i, rfl⟩ : ∃ i, n = j + i := ⟨n - j, by omega⟩
+  exact ⟨kext_add_subset j i h, kext_subset_dm _ h⟩
 
 end extension
 
